@@ -114,7 +114,173 @@ def c15(pid, tier, seed, t0):
     return run_stages(pid, tier, seed, t0, "exploration", stages, required=WALK_FEATURES, assumptions=WALK_ASSUME)
 
 
+def c06(pid, tier, seed, t0):
+    stages = [
+        H("fen-checked", "c06", "checked"),
+        # the optimised build has no overflow checks and no debug assertions: the same hostile
+        # text must still yield a position or an error
+        H("fen-hostile-opt", "c06", "opt", args=["--hostile-only"], group="c06-opt"),
+    ]
+    return run_stages(pid, tier, seed, t0, "exploration", stages,
+                      required=("legal_positions_round_tripped", "canonical_text_with_ep_history",
+                                "mut_width_shift_total_64", "mut_total_not_64", "mut_counters", "mut_missing_fields",
+                                "mut_extra_fields", "mut_non_ascii", "mut_random_string", "bad_rank_width_rejected"),
+                      assumptions=["inputs are valid UTF-8 (from_fen takes &str)",
+                                   "leniencies of the reader other than rank widths (missing counters, repeated "
+                                   "castling letters) are not demanded away"])
+
+
+def c07(pid, tier, seed, t0):
+    stages = [H("tables-checked", "c07", "checked"),
+              H("tables-opt", "c07", "opt", group="c07-opt")]
+    rc = run_stages(pid, tier, seed, t0, "exploration", stages,
+                    required=("rook_subsets", "bishop_subsets", "between_pairs", "leaper_entries"),
+                    assumptions=["oracle = coordinate-arithmetic ray walk written for this check",
+                                 "index bounds: hook H4 asserts the index natively; the thorough tier repeats the "
+                                 "enumeration under Miri, which checks the access itself"],
+                    exhaustive=True)
+    return rc
+
+
+def c10(pid, tier, seed, t0):
+    stages = [H("picker-checked", "c10", "checked", args=["--scale", "3"])]
+    return run_stages(pid, tier, seed, t0, "exploration", stages,
+                      required=("full_streams", "loud_streams", "coincidence_hash_eq_killer",
+                                "coincidence_counter_eq_killer", "coincidence_counter_eq_hash",
+                                "remembered_not_legal_here", "remembered_legal_capture", "position_in_check",
+                                "position_with_ep_capture", "position_with_previous_move"),
+                      assumptions=["hash move is a legal move or none, as the property states",
+                                   "oracle = refchess legal moves with rule-derived flags"])
+
+
+def c11(pid, tier, seed, t0):
+    stages = [H("draws-checked", "c11", "checked", args=["--scale", "2"])]
+    return run_stages(pid, tier, seed, t0, "exploration", stages,
+                      required=("repetitions_observed", "repetition_of_oldest_position_in_window",
+                                "clock_ge_100_observed", "terminal_at_clock_ge_100", "fen_start_with_nonzero_clock",
+                                "null_moves_in_history", "bare_kings", "king_and_minor",
+                                "three_men_with_pawn_rook_or_queen", "synth_more_than_two_minors",
+                                "castling_right_lost_inside_history"),
+                      assumptions=["position identity = (placement, side, rights, en-passant target field) as read from "
+                                   "the engine's observable state, which C02 judges against the rules",
+                                   "with null moves in the history only 'engine says repeated => an identical earlier "
+                                   "position exists' is demanded"])
+
+
+def c16(pid, tier, seed, t0):
+    stages = [H("eval-checked", "c16", "checked")]
+    return run_stages(pid, tier, seed, t0, "exploration", stages,
+                      required=("phase_above_24", "six_or_more_queens", "blend_cube_triples"),
+                      assumptions=["pure middlegame / endgame assessments are the engine's own evaluation with the "
+                                   "phase forced to 24 / 0", "non-mate range = |score| < 31900"])
+
+
+def c18(pid, tier, seed, t0):
+    stages = [H("san-checked", "c18", "checked")]
+    return run_stages(pid, tier, seed, t0, "exploration", stages,
+                      required=("ambiguity_neither_file_nor_rank_shared", "ambiguity_file_shared",
+                                "ambiguity_rank_shared", "ambiguity_both_shared", "capturing_promotions",
+                                "castling_giving_check", "pawn_capture_with_other_capturer_on_same_file",
+                                "moves_giving_check"),
+                      assumptions=["oracle = refchess SAN writer (FIDE Appendix C); '+' on a mating move is accepted"])
+
+
+def c19(pid, tier, seed, t0):
+    stages = [H("tt-checked", "c19", "checked"),
+              H("tt-opt", "c19", "opt", group="c19-opt", args=["--no-size-sweep"])]
+    return run_stages(pid, tier, seed, t0, "exploration", stages,
+                      required=("insert_must_not_displace_exact", "insert_over_older_search", "insert_policy_free",
+                                "slot_collision_different_keys", "probe_hits", "probe_misses", "reset", "resize",
+                                "occupancy_checks", "ops_on_zero_slot_table", "generation_wrapped_past_255",
+                                "probes_after_reset_or_resize", "size_sweep_tables"),
+                      assumptions=["search identity = the 8-bit generation the API exposes; ages 256 searches apart "
+                                   "alias by construction and are treated as one search by the model",
+                                   "a resize to the current size is a documented no-op and is never issued"])
+
+
+def c20(pid, tier, seed, t0):
+    stages = [H("see-checked", "c20", "checked", args=["--scale", "2"])]
+    return run_stages(pid, tier, seed, t0, "exploration", stages,
+                      required=("target_undefended", "victim_ge_attacker", "swaplist_order_irrelevant",
+                                "swaplist_with_xray_attacker", "capturing_promotions"),
+                      assumptions=["exact swap list ignores pins (as any swap list does); exchanges where a pawn would "
+                                   "recapture onto a back rank, where tie order matters, or where a king capture hinges "
+                                   "on an x-ray through the king itself are counted as skipped"])
+
+
+SEARCH_FEATURES = ("chain_crossing_256_searches", "chain_game_played_through", "hash_0mb", "hash_1mb", "hash_64mb",
+                   "limit_clock", "limit_movetime", "limit_depth_255_with_stop", "pos_mate_or_tiny_tree_root",
+                   "pos_near_fifty_move_boundary", "pos_playout_with_history", "pos_synth",
+                   "reset_between_searches", "resize_between_searches")
+
+
+def c04(pid, tier, seed, t0):
+    stages = [
+        H("search-checked", "c04", "checked", group="c04"),
+        H("search-opt", "c04", "opt", group="c04-opt"),
+    ]
+    return run_stages(pid, tier, seed, t0, "exploration", stages, required=SEARCH_FEATURES + ("searches",),
+                      assumptions=["termination: every search has a logical bound (depth, time, or a stop request "
+                                   "at a given poll via hook H1); a stage watchdog firing is inconclusive",
+                                   "harness threads have large stacks; exhaustion of the real 2 MiB search-thread "
+                                   "stack is observable only in the process-level stage",
+                                   "legality oracle = refchess"])
+
+
+def c08(pid, tier, seed, t0):
+    stages = [H("lines-checked", "c08", "checked")]
+    return run_stages(pid, tier, seed, t0, "exploration", stages,
+                      required=SEARCH_FEATURES + ("info_lines", "mate_for_root_side", "mate_against_root_side",
+                                                  "mate_distance_3", "mate_distance_5", "searches_on_used_tables"),
+                      assumptions=["oracle = refchess replay of every reported line"])
+
+
+def c09(pid, tier, seed, t0):
+    stages = [H("stops-checked", "c09", "checked")]
+    return run_stages(pid, tier, seed, t0, "fault_enumeration", stages,
+                      required=("triples_enumerated", "stop_points_enumerated", "followup_searches",
+                                "completed_iterations_at_abort_1", "completed_iterations_at_abort_5",
+                                "prior_state_from_another_position", "prior_state_warm_same_position"),
+                      assumptions=["exhaustive in k for each sampled (position, depth, prior state); the triples are "
+                                   "sampled", "the polling points are the program's own: hook H1 only makes the flag "
+                                   "read true from poll k on",
+                                   "expiry of a time limit takes the same return path at the same polls"])
+
+
+def c12(pid, tier, seed, t0):
+    stages = [H("determinism-checked", "c12", "checked")]
+    return run_stages(pid, tier, seed, t0, "exploration", stages,
+                      required=("reset_then_compare_with_fresh", "second_run_under_load",
+                                "long_chain_ge_255_generations", "hash_1mb", "hash_64mb"),
+                      assumptions=["transcript = best move + depth, seldepth, score, nodes, hashfull, line of every "
+                                   "iteration; time and nps excluded"])
+
+
+def c14(pid, tier, seed, t0):
+    stages = [H("limits-checked", "c14", "checked"),
+              H("limits-opt", "c14", "opt", group="c14-opt")]
+    return run_stages(pid, tier, seed, t0, "exploration", stages,
+                      required=("grid_tuples", "random_tuples", "remaining_below_200ms",
+                                "only_one_sides_time_supplied", "moves_to_go_1", "moves_to_go_u32_max",
+                                "overhead_exactly_half", "fixed_movetime_cases"),
+                      assumptions=["limits read through hook H2", "bound checked with a tolerance of one f32 ulp of the "
+                                   "remaining time + 1 us (the code computes through Duration::mul_f32)"])
+
+
 PROPS = {
+    "C04": c04,
+    "C08": c08,
+    "C09": c09,
+    "C12": c12,
+    "C14": c14,
+    "C06": c06,
+    "C07": c07,
+    "C10": c10,
+    "C11": c11,
+    "C16": c16,
+    "C18": c18,
+    "C19": c19,
+    "C20": c20,
     "C01": c01,
     "C02": c02,
     "C03": c03,
